@@ -1590,7 +1590,9 @@ class SourceCatalog:
         nan_mask = (np.isnan(centroid_quad[:, 0])
                     | np.isnan(centroid_quad[:, 1]))
         if np.any(nan_mask):
-            centroid_quad[nan_mask] = self.cutout_centroid[nan_mask]
+            # (cutout_centroid is 1D for a scalar catalog)
+            cutout_centroid = np.atleast_2d(self.cutout_centroid)
+            centroid_quad[nan_mask] = cutout_centroid[nan_mask]
 
         return centroid_quad
 
